@@ -135,7 +135,11 @@ def shard(ctx):
     for idx in range(ctx.shard, total, ctx.nshards):
         check_text(ctx, 'atoms<=%d' % maxlen, hostile.atom_sequence_at(idx))
     gen = grammar_texts.Source(rng)
+    k = 0
     while ctx.running():
+        k += 1
+        if k % 2500 == 900:
+            check_text(ctx, 'bulk', hostile.bulk_statement(rng))
         x = rng.random()
         if x < 0.3:
             kind, text = 'sepsoup', sep_soup(rng)
